@@ -1,0 +1,197 @@
+//go:build verif
+
+// Verification-only exports for the hostile-input properties (C33/C34). Add-only: nothing in
+// this file is compiled without the `verif` tag and no existing line of the package changes.
+
+package tls
+
+import (
+	"fmt"
+	"io"
+	"net"
+	"time"
+)
+
+// VerifCompressedCert is the parsed view of a utlsCompressedCertificateMsg.
+type VerifCompressedCert struct {
+	Algorithm          uint16
+	UncompressedLength uint32
+	Body               []byte
+}
+
+// VerifUnmarshalCompressedCert runs utlsCompressedCertificateMsg.unmarshal.
+func VerifUnmarshalCompressedCert(data []byte) (VerifCompressedCert, bool) {
+	var m utlsCompressedCertificateMsg
+	ok := m.unmarshal(data)
+	return VerifCompressedCert{m.algorithm, m.uncompressedLength, m.compressedCertificateMessage}, ok
+}
+
+// VerifMarshalCompressedCert runs utlsCompressedCertificateMsg.marshal.
+func VerifMarshalCompressedCert(v VerifCompressedCert) ([]byte, error) {
+	m := utlsCompressedCertificateMsg{algorithm: v.Algorithm, uncompressedLength: v.UncompressedLength, compressedCertificateMessage: v.Body}
+	return m.marshal()
+}
+
+// VerifServerEE is the parsed view of an encryptedExtensionsMsg (including the uTLS extra fields).
+type VerifServerEE struct {
+	ALPN       string
+	HasQUICTP  bool
+	QUICTP     []byte
+	EarlyData  bool
+	ECHRetry   []byte
+	ALPS       []byte
+	ALPSCode   uint16
+	CustomExt  []byte
+	HasALPSVal bool // applicationSettings != nil
+}
+
+// VerifUnmarshalServerEE runs encryptedExtensionsMsg.unmarshal (with utlsUnmarshal).
+func VerifUnmarshalServerEE(data []byte) (VerifServerEE, bool) {
+	var m encryptedExtensionsMsg
+	ok := m.unmarshal(data)
+	return VerifServerEE{
+		ALPN: m.alpnProtocol, HasQUICTP: m.quicTransportParameters != nil, QUICTP: m.quicTransportParameters,
+		EarlyData: m.earlyData, ECHRetry: m.echRetryConfigs,
+		ALPS: m.utls.applicationSettings, ALPSCode: m.utls.applicationSettingsCodepoint, CustomExt: m.utls.customExtension,
+		HasALPSVal: m.utls.applicationSettings != nil,
+	}, ok
+}
+
+// VerifMarshalServerEE runs encryptedExtensionsMsg.marshal (which ignores the uTLS extra fields).
+func VerifMarshalServerEE(v VerifServerEE) ([]byte, error) {
+	m := encryptedExtensionsMsg{alpnProtocol: v.ALPN, earlyData: v.EarlyData, echRetryConfigs: v.ECHRetry}
+	if v.HasQUICTP {
+		m.quicTransportParameters = v.QUICTP
+		if m.quicTransportParameters == nil {
+			m.quicTransportParameters = []byte{}
+		}
+	}
+	return m.marshal()
+}
+
+// VerifClientEE is the parsed view of a utlsClientEncryptedExtensionsMsg.
+type VerifClientEE struct {
+	ALPS      []byte
+	ALPSCode  uint16
+	CustomExt []byte
+}
+
+// VerifUnmarshalClientEE runs utlsClientEncryptedExtensionsMsg.unmarshal.
+func VerifUnmarshalClientEE(data []byte) (VerifClientEE, bool) {
+	var m utlsClientEncryptedExtensionsMsg
+	ok := m.unmarshal(data)
+	return VerifClientEE{m.applicationSettings, m.applicationSettingsCodepoint, m.customExtension}, ok
+}
+
+// VerifMarshalClientEE runs utlsClientEncryptedExtensionsMsg.marshal.
+func VerifMarshalClientEE(v VerifClientEE) ([]byte, error) {
+	m := utlsClientEncryptedExtensionsMsg{applicationSettings: v.ALPS, applicationSettingsCodepoint: v.ALPSCode, customExtension: v.CustomExt}
+	return m.marshal()
+}
+
+// verifSink is a net.Conn that records writes and has nothing to read.
+type verifSink struct{ w []byte }
+
+func (s *verifSink) Read(p []byte) (int, error)         { return 0, io.EOF }
+func (s *verifSink) Write(p []byte) (int, error)        { s.w = append(s.w, p...); return len(p), nil }
+func (s *verifSink) Close() error                       { return nil }
+func (s *verifSink) LocalAddr() net.Addr                { return nil }
+func (s *verifSink) RemoteAddr() net.Addr               { return nil }
+func (s *verifSink) SetDeadline(t time.Time) error      { return nil }
+func (s *verifSink) SetReadDeadline(t time.Time) error  { return nil }
+func (s *verifSink) SetWriteDeadline(t time.Time) error { return nil }
+
+// VerifReadHandshake runs (*Conn).readHandshake (header/limit logic, the per-role message-type
+// dispatch of unmarshalHandshakeMessage / utlsHandshakeMessageType, and the chosen unmarshal) on a
+// connection whose handshake buffer holds `hand` and whose transport is at EOF.
+// It returns the Go type of the parsed message ("" on error), the error text, the bytes the
+// connection wrote (alert records) and how many bytes remain in the handshake buffer.
+func VerifReadHandshake(isClient bool, vers uint16, haveVers bool, hand []byte) (typ string, errText string, wrote []byte, remaining int) {
+	sink := &verifSink{}
+	c := &Conn{conn: sink, isClient: isClient, config: &Config{}}
+	c.vers = vers
+	c.haveVers = haveVers
+	c.hand.Write(hand)
+	c.in.Lock()
+	msg, err := c.readHandshake(nil)
+	c.in.Unlock()
+	if err != nil {
+		errText = err.Error()
+	} else {
+		typ = fmt.Sprintf("%T", msg)
+	}
+	return typ, errText, sink.w, c.hand.Len()
+}
+
+// VerifWriteRawRecord writes one record of the given (inner) type with exactly this payload —
+// which may be empty — under the connection's current write keys. Intended for a *server* connection
+// playing a hostile peer (empty application-data records, warning alerts, several handshake
+// messages in one record, ChangeCipherSpec after the handshake).
+func (c *Conn) VerifWriteRawRecord(typ uint8, payload []byte) error {
+	c.out.Lock()
+	defer c.out.Unlock()
+	_, outBuf := sliceForAppend(nil, recordHeaderLen)
+	outBuf[0] = typ
+	vers := c.vers
+	if vers == 0 {
+		vers = VersionTLS10
+	} else if vers == VersionTLS13 {
+		vers = VersionTLS12
+	}
+	outBuf[1] = byte(vers >> 8)
+	outBuf[2] = byte(vers)
+	outBuf[3] = byte(len(payload) >> 8)
+	outBuf[4] = byte(len(payload))
+	outBuf, err := c.out.encrypt(outBuf, payload, c.config.rand())
+	if err != nil {
+		return err
+	}
+	_, err = c.write(outBuf)
+	return err
+}
+
+// VerifFuzzConsts exposes the limits the models quote.
+func VerifFuzzConsts() (maxHandshakeSize, maxHandshakeCert, maxUseless int, typeCompressedCert, typeEE uint8, alpsOld, alpsNew, fakeCustom uint16) {
+	return maxHandshake, maxHandshakeCertificateMsg, maxUselessRecords, utlsTypeCompressedCertificate, utlsTypeEncryptedExtensions,
+		utlsExtensionApplicationSettings, utlsExtensionApplicationSettingsNew, utlsFakeExtensionCustom
+}
+
+// VerifFuzzDecompressCert runs (*clientHandshakeStateTLS13).decompressCert on a bare client
+// connection that advertised `algs`. Returns the number of certificates recovered, or the error.
+func VerifFuzzDecompressCert(algs []CertCompressionAlgo, v VerifCompressedCert) (nCerts int, errText string, wrote []byte) {
+	sink := &verifSink{}
+	c := &Conn{conn: sink, isClient: true, config: &Config{}}
+	c.vers = VersionTLS13
+	u := &UConn{Conn: c}
+	u.certCompressionAlgs = algs
+	hs := &clientHandshakeStateTLS13{c: c, uconn: u}
+	m := utlsCompressedCertificateMsg{algorithm: v.Algorithm, uncompressedLength: v.UncompressedLength, compressedCertificateMessage: v.Body}
+	cert, err := hs.decompressCert(m)
+	if err != nil {
+		return 0, err.Error(), sink.w
+	}
+	return len(cert.certificate.Certificate), "", sink.w
+}
+
+// VerifParseECHExt runs parseECHExt (server side). kind: 0 outer, 1 inner; errText "" on success.
+func VerifParseECHExt(ext []byte) (kind uint8, kdf, aead uint16, configID uint8, encap, payload []byte, errText string) {
+	t, cs, id, enc, pl, err := parseECHExt(ext)
+	if err != nil {
+		return 0, 0, 0, 0, nil, nil, err.Error()
+	}
+	return uint8(t), cs.KDFID, cs.AEADID, id, enc, pl, ""
+}
+
+// VerifRekeyOut advances the connection's TLS 1.3 *write* traffic secret n times, as a peer does after
+// sending n KeyUpdate messages (used with VerifWriteRawRecord on a server connection).
+func (c *Conn) VerifRekeyOut(n int) {
+	cs := cipherSuiteTLS13ByID(c.cipherSuite)
+	if cs == nil {
+		return
+	}
+	c.out.Lock()
+	defer c.out.Unlock()
+	for i := 0; i < n; i++ {
+		c.out.setTrafficSecret(cs, QUICEncryptionLevelInitial, cs.nextTrafficSecret(c.out.trafficSecret))
+	}
+}
